@@ -130,9 +130,12 @@ package action
 
 // ---- C13: value reuse policy (upgrade.go)
 
+//@ ghost func valuesCarriedFrom(vals gomap[string]interface{}, current *release.Release) bool
+
 //@ func (*Upgrade).reuseValues
 //@   props C13
 //@   requires u != nil && chart != nil && current != nil
+//@   marks err == nil ==> valuesCarriedFrom(result, current)
 //@   ensures [reset] old(u.ResetValues) ==> err == nil && result == newVals && chart.Values == old(chart.Values)
 //@   ensures [reuse] !old(u.ResetValues) && old(u.ReuseValues) && err == nil ==> result == coalT(newVals, old(current.Config)) && chart.Values == coalV(old(current.Chart), old(current.Config))
 //@   ensures [reset-then-reuse] !old(u.ResetValues) && !old(u.ReuseValues) && old(u.ResetThenReuseValues) ==> err == nil && result == coalT(newVals, old(current.Config)) && chart.Values == old(chart.Values)
@@ -174,6 +177,7 @@ package action
 //@   ensures [C01] [next-revision] result2 == nil ==> fresh(result1) && result1.Name == name && aboveAll(name, result1.Version) && result1.Info.Status == "pending-upgrade" && result0 != nil
 //@   ensures [C01] [C09] [pending-blocks] (exists v int :: Dex[mkkey(name, v)] && (forall w int :: Dex[mkkey(name, w)] ==> w <= v) && (Dst[mkkey(name, v)] == "pending-install" || Dst[mkkey(name, v)] == "pending-upgrade" || Dst[mkkey(name, v)] == "pending-rollback")) ==> result2 != nil
 //@   ensures [C13] [current-is-deployed-if-any] result2 == nil && (exists v int :: Dex[mkkey(name, v)] && Dst[mkkey(name, v)] == "deployed") ==> result0.Info.Status == "deployed"
+//@   ensures [C13] [values-carried-from-current] result2 == nil ==> valuesCarriedFrom(result1.Config, result0)
 //@   ensures [results] result2 == nil ==> result0 != nil && result1 != nil && result1.Info != nil
 
 //@ func (*Upgrade).performUpgrade
